@@ -113,10 +113,10 @@ fn process_create_event(
     paths: &[PathBuf],
 ) -> Option<SourceFileEvent> {
     match create_kind {
-        // Note: maybe we should add CreateKind::Folder as well. Need a confirmation
-        // that move folder from outside a watch directory could fire a create event.
-        // Now it's always Modify(Name(Any)) i.e. Rename
-        CreateKind::File => {
+        // A new folder may already contain files when its create event arrives (with
+        // inotify, files written before the watch on the new folder is installed get
+        // no event of their own), so it is read like any other changed folder.
+        CreateKind::File | CreateKind::Folder => {
             if paths.len() != 1 {
                 panic!(
                     "File create event should contain exactly one file. \
@@ -154,8 +154,10 @@ fn process_modify_event(
         }
         ModifyKind::Name(rename_mode) => {
             match rename_mode {
-                // This event could be fired once on delete or twice on rename
-                RenameMode::Any => {
+                // Any: this event could be fired once on delete or twice on rename.
+                // From / To: what inotify reports when a file or folder is moved out of /
+                // into the watched paths (a move inside them is reported as Both).
+                RenameMode::Any | RenameMode::From | RenameMode::To => {
                     if paths.len() != 1 {
                         panic!(
                             "File rename event should contain exactly one file. \
